@@ -290,7 +290,7 @@ def run(ctx):
     # stop() shuts down on EVERY path: no return of stop() — also not an error return of an earlier step such as the leave
     # phase — is reachable without cancelling the token and taking both task handles. (The `?` after leave_network is harmless
     # only as long as leave_network cannot fail: with it spliced in, its error returns — if it has any — are followed.)
-    st2 = prog.inl(MGR + '::stop', only=r'::leave_network(::\{closure#0\})?$')
+    st2 = prog.inl(MGR + '::stop', keep=r'::(signal_shutdown|send_dht_request)$')
     canc2 = st2.calls(r'CancellationToken::cancel$')
     takes2 = [c for c in st2.calls(r'Option::<.*>::take$') if 'JoinHandle' in (L.operand_ty(st2, c.args[0]) or '')]
     rets2 = st2.return_blocks()
